@@ -166,7 +166,7 @@ pub fn run(run: &mut Run) -> PResult {
         }
     }
     run.generator("structured deck indexes", "exhaustive+structured", None, n, n - 52, "0..4096, powers of two +-1, usize::MAX; non-trivial = indexes at or past the end");
-    let cases = if run.tier == Tier::Thorough { 1_000_000 } else { 100_000 };
+    let cases = (if run.tier == Tier::Thorough { 1_000_000 } else { 100_000 }) / if run.is_twin() { 4 } else { 1 };
     let cnt = std::cell::Cell::new(0u64);
     let distinct = std::cell::RefCell::new(engine::Distinct::new());
     use proptest::prelude::*;
